@@ -149,9 +149,13 @@ def linear_matrix_action(linear_map, n, **kwargs):
 
             b_image = linear_map(bm)
 
-            map_matrix[:, i*n + j] = gln_lie_algebra_coords(
-                b_image, autoconvert=False
-            )
+            coords = gln_lie_algebra_coords(b_image, autoconvert=False)
+
+            # linear_map may be an array of linear maps
+            if len(coords.shape) > len(map_matrix.shape) - 1:
+                map_matrix = np.tile(map_matrix, coords.shape[:-1] + (1, 1))
+
+            map_matrix[..., i*n + j] = coords
 
     return map_matrix
 
@@ -171,9 +175,13 @@ def sln_linear_action(linear_map, n, **kwargs):
 
             b_image = linear_map(bm)
 
-            map_matrix[:, i*n + j] = sln_lie_algebra_coords(
-                b_image, autoconvert=False
-            )
+            coords = sln_lie_algebra_coords(b_image, autoconvert=False)
+
+            # linear_map may be an array of linear maps
+            if len(coords.shape) > len(map_matrix.shape) - 1:
+                map_matrix = np.tile(map_matrix, coords.shape[:-1] + (1, 1))
+
+            map_matrix[..., i*n + j] = coords
 
     return map_matrix
 
